@@ -456,7 +456,7 @@ pub fn sites(w: &WPacket) -> Vec<Site> {
                 push(Entry::WillQosNoWill, 3);
             }
             push(Entry::ConnRes, 1);
-            push(Entry::ProtoName, 8);
+            push(Entry::ProtoName, 14);
             push(Entry::ProtoFamily, if v5 { 2 } else { 1 });
         }
         Body::Connack { .. } => {
@@ -1053,7 +1053,7 @@ pub fn apply_ex(orig: &WPacket, site: &Site, t: &mut Tape, out_w: &mut Option<WP
         Entry::ProtoName => {
             let fam_ok: &[(&[u8], u8)] = &[(b"MQIsdp", 3), (b"MQTT", 4), (b"MQTT", 5)];
             let cands: &[(&[u8], u8)] =
-                &[(b"MQTT", 6), (b"MQTT", 3), (b"MQIsdp", 4), (b"mqtt", 4), (b"", 4), (b"MQTTX", 5), (b"MQIsdp", 5), (b"MQTT", 0)];
+                &[(b"MQTT", 6), (b"MQTT", 3), (b"MQIsdp", 4), (b"mqtt", 4), (b"", 4), (b"MQTTX", 5), (b"MQIsdp", 5), (b"MQTT", 0), (b"MQTT", 0x84), (b"MQTT", 0x85), (b"MQIsdp", 0x83), (b"MQTT", 0x04 | 0x40), (b"MQTT", 255), (b"MQIsdp", 0x03 | 0x10)];
             let (n, l) = cands[site.idx % cands.len()];
             if fam_ok.contains(&(n, l)) {
                 return None;
